@@ -1256,6 +1256,64 @@ def rule_queue_internals(ctx, rid, r):
     ctx.floor(rid, "uses of Queue internals examined", n, 6)
 
 
+def rule_queue_is_library_queue(ctx, rid, engine):
+    """The work queue - the object the engine waits on with `.join()` and the workers `.get()` from - is a queue.Queue or a subclass
+    of it that overrides nothing but the storage hooks (_init / _put / _get / _qsize) and its constructor: blocking, wake-ups and
+    the unfinished-task count stay the library's.  (Role-free: runs before the role discovery, which needs such a queue.)"""
+    m = ctx.model
+    e = engine
+    joined = [c for c in e.own_calls() if isinstance(c.func, ast.Attribute) and c.func.attr == "join" and not c.args and not c.keywords
+              and isinstance(c.func.value, ast.Name)]
+    qvars = set()
+    for c in joined:
+        os_ = m.origins_of(e, c.func.value)
+        if not any(o[0] == "extinst" and o[1] == "threading.Thread" for o in os_):
+            qvars.add(c.func.value.id)
+    # the candidates are variables assigned from a call in the engine (the factory) - not loop variables over threads
+    facts = []
+    for v in sorted(qvars):
+        for kind, expr, path in e.bindings.get(v, []):
+            if kind == "assign" and isinstance(expr, ast.Call) and not path:
+                facts.append((v, expr))
+    ctx.floor(rid, "work queues the engine waits on", len(facts), 1)
+    hooks = {"_init", "_put", "_get", "_qsize", "__init__"}
+    for v, call in facts:
+        kinds, bad = set(), []
+        work, seen = list(m.callee_funcs(e, call)), set()
+        while work:
+            f = work.pop()
+            if f in seen:
+                continue
+            seen.add(f)
+            for n in f.own_nodes():
+                if isinstance(n, ast.Return) and n.value is not None:
+                    for o in m.origins_of(f, n.value):
+                        if o[0] == "extinst":
+                            kinds.add(o[1])
+                            if o[1] != "queue.Queue":
+                                bad.append(f"{f.short} returns a {o[1]}")
+                        elif o[0] == "inst":
+                            cls = o[1]
+                            kinds.add(cls.name)
+                            if "queue.Queue" not in cls.ext_bases():
+                                bad.append(f"{cls.name} is not a queue.Queue: it re-implements put / get / task_done / join itself")
+                            else:
+                                import queue as _q
+                                extra = sorted(({nm for k in cls.repo_mro() for nm in k.methods} & set(dir(_q.Queue))) - hooks)
+                                if extra:
+                                    bad.append(f"{cls.name} overrides {extra} of queue.Queue")
+                        elif o[0] in ("func",):
+                            work.append(o[1])
+            for c2 in f.own_calls():
+                work.extend(g for g in m.callee_funcs(f, c2) if g.cls is None and g.module is f.module)
+        ok = bool(kinds) and not bad
+        ctx.ob(rid, f"{e.short}/{v}-is-a-library-queue", ok, loc(e, call),
+               f"the work queue is a queue.Queue or a subclass that overrides only the storage hooks ({sorted(kinds)})" if ok else
+               ("; ".join(sorted(set(bad))[:3]) if bad else "the class of the work queue could not be determined") +
+               ": the blocking / wake-up / unfinished-count protocol on which `queue.join()` returning means 'every item was processed' is no longer the library's",
+               norm(call)[:80])
+
+
 # ------------------------------------------------------------------------------------------------ C04.D2
 
 def sentinel_branches(m, lp, g, r, item):
